@@ -304,6 +304,21 @@ class Exec:
         self.prune_if_infeasible()
         return c == 0
 
+    @staticmethod
+    def _bounded_check(solver, ms):
+        """solver.check() with a watchdog: z3's own timeout is not honoured in every phase."""
+        import threading
+
+        wd = threading.Timer(ms / 1000.0 + 2.0, solver.ctx.interrupt)
+        wd.daemon = True
+        wd.start()
+        try:
+            return solver.check()
+        except z3.Z3Exception:
+            return z3.unknown
+        finally:
+            wd.cancel()
+
     def prune_if_infeasible(self):
         """Stop exploring a path whose hypotheses are unsatisfiable (sound: only `unsat`
         prunes; unknown / sat continue)."""
@@ -311,7 +326,7 @@ class Exec:
         s.set("timeout", 300)
         qf = [h for h in self.hyps if not _has_quantifier(h)]
         s.add(*qf)
-        if s.check() == z3.unsat:
+        if self._bounded_check(s, 300) == z3.unsat:
             self.pruned += 1
             raise PathEnd()
         if len(qf) != len(self.hyps):
@@ -321,7 +336,7 @@ class Exec:
             s2.set("smt.mbqi", False)
             s2.add(*self.hyps)
             s2.add(*self.prop.distinct_axioms())
-            if s2.check() == z3.unsat:
+            if self._bounded_check(s2, 400) == z3.unsat:
                 self.pruned += 1
                 raise PathEnd()
 
